@@ -27,7 +27,10 @@ fn main() {
     let r = Report::new("C11", Level::FaultEnumeration);
     mc::quiet_panics();
     walkit::syncspy::init();
-    r.rule("a case is one damaged image: (log, damage operator, position) evaluated by every reader; \
+    r.rule("readers: recover_wal_segment_bytes and recover_filesystem_store in both modes (+ a second recovery after the writable one), doctor_filesystem_store, \
+            validate_filesystem_manifest, FilesystemWalStore::open, the graph projection (project_filesystem_wal_recovery over the read-only report with the intact log's \
+            writer-epoch evidence: Present over a non-prefix history is a violation, Obstructed/Absent is a typed refusal) and TrustedRuntimeHost::enable_runtime_wal. \
+            A case is one damaged image: (log, damage operator, position) evaluated by every reader; \
             distinct_nontrivial counts images whose bytes differ from the original inside a committed record. \
             Multi-segment part: a case is (2-3 segment log, one damage applied to ONE segment file or to the set of files, all other files intact): \
             every single-segment operator on each segment file in turn, truncation of every non-final segment (every record boundary and zero length; thorough every byte length), \
@@ -80,6 +83,32 @@ fn main() {
         }
     };
     r.counter("logs", logs.len() as u64);
+    // vacuity for the projection reader: every intact log projects Present with its writer-epoch evidence
+    {
+        let d = fresh_dir(&scratch, "c11-intact").join("wal");
+        let mut present = 0usize;
+        let mut other = Vec::new();
+        for (a, _) in &logs {
+            let _ = std::fs::remove_dir_all(&d);
+            a.image_after(a.n()).materialise(&d);
+            match warp_core::causal_wal::recover_filesystem_store(&d, warp_core::causal_wal::RecoveryAccessMode::ReadOnly) {
+                Ok(rep) => {
+                    let pr = warp_core::causal_wal::project_filesystem_wal_recovery(&d, &rep, &a.writer_epochs, None);
+                    if pr.posture == warp_core::causal_wal::WalRecoveryProjectionPosture::Present {
+                        present += 1;
+                    } else {
+                        other.push(format!("{}: {:?} {:?}", a.word(), pr.posture, pr.obstructions));
+                    }
+                }
+                Err(e) => other.push(format!("{}: {e:?}", a.word())),
+            }
+        }
+        r.counter("intact_logs_projected_present", present as u64);
+        if !other.is_empty() {
+            r.note("intact_logs_not_projected_present", json!(other));
+        }
+        r.guard("intact_log_projects_present", present == logs.len() && present > 0);
+    }
     r.counter("log_bytes_total", logs.iter().map(|l| l.0.segment.len() as u64).sum());
 
     // ---- segment damage ----------------------------------------------------------------------
@@ -167,6 +196,8 @@ fn main() {
     r.guard("flips_in_every_region_seen", ["frame.magic", "frame.kind", "frame.len", "frame.payload", "frame.digest", "commit.magic", "commit.kind", "commit.len", "commit.payload", "commit.digest"]
         .iter().all(|reg| seen(&format!("region:{reg}"))));
     r.guard("record_edits_seen", seen("op:delete") && seen("op:dup") && seen("op:swap") && seen("op:transplant") && seen("op:splice") && seen("op:unknown-kind"));
+    r.guard("projection_reader_saw_present_and_obstructed", seen("projection:Present") && seen("projection:Obstructed"));
+    r.guard("projection_obstructed_on_duplicated_history", seen("projection:Obstructed-on-non-prefix-history"));
     r.guard("ledger_and_manifest_flips_seen", oc2.keys().any(|k| k.starts_with("ledger:")) && oc2.keys().any(|k| k.starts_with("manifest:")));
     if let Some((a, _)) = logs.first() {
         r.sample(json!({"log": a.word(), "segment_len": a.segment.len(),
